@@ -76,6 +76,10 @@ func (enc *VP8Encoder) encodeFrame() {
 
 		// 6. Record tokens for the coefficient data (skip if no coefficients).
 		if info.Skip {
+			// A skipped macroblock emits no tokens, but its (empty) token
+			// range must still be recorded: EmitTokensPartitioned slices
+			// the token stream by mbStart[i]..mbStart[i+1].
+			enc.tokens.MarkMBStart(it.MBIdx)
 			// Mirror decoder's skip handling: clear NZ context.
 			enc.topNz[it.X] = 0
 			enc.leftNz = 0
